@@ -214,7 +214,7 @@ REVERTS = [
      ("0ad9135", ["C09"]), ("6e33d4e", ["C10"]),  
     ("e7f960c", ["C20"]),  ("4f0c1c6", ["C10"]),  
     ("fd90d27", ["C04"]),   ("ed11f52", ["C14", "C07"]), 
-    ("fc4462d", ["C15"]), ("b820994", ["C07"]), ("a5aab9a+1e5d23a", ["C20"]), ("c4adbf8", ["C20"]), ("7e7ea08+f9a7bc8", ["C20"]), ("4644358+c069746", ["C18"]), ("180d253", ["C11"]), ("b820994+7c8d896", ["C06"]), ("3c1fb9f+b7a2891", ["C11"]), ("180d253+e336573+3125173", ["C11"]), ("3c1fb9f+b7a2891+bc34c9c", ["C11"]),  ("4b15b99", ["C19"]), ("4644358+c069746+f85e07b+e81c9c4", ["C16"]), ("09d4462", ["C11"]),  ("8acb033", ["C10"]), ("38d48b4", ["C14"]), ("c16fd62", ["C04"]), ("0034e06", ["C04"]), ("470f494", ["C08"]),
+    ("fc4462d", ["C15"]), ("536e3b6+b820994", ["C07"]), ("8863d66+a5aab9a+1e5d23a", ["C20"]), ("c4adbf8", ["C20"]), ("1d7d02a+7e7ea08+f9a7bc8", ["C20"]), ("4644358+c069746", ["C18"]), ("180d253", ["C11"]), ("536e3b6+b820994+7c8d896", ["C06"]), ("8863d66+787d8c3+3c1fb9f+b7a2891", ["C11"]), ("180d253+e336573+3125173", ["C11"]), ("8863d66+787d8c3+3c1fb9f+b7a2891+bc34c9c", ["C11"]),  ("4b15b99", ["C19"]), ("4644358+c069746+f85e07b+e81c9c4", ["C16"]), ("09d4462", ["C11"]),  ("8acb033", ["C10"]), ("38d48b4", ["C14"]), ("c16fd62", ["C04"]), ("0034e06", ["C04"]), ("470f494", ["C08"]),
 ]
 
 
